@@ -6,8 +6,14 @@ use crate::replay::Replay;
 use std::time::{Duration, Instant};
 
 /// the same oracle fires (with the same structural signature, when one is given)
+/// hangs contained in this process so far: every one leaves a parked thread that keeps its memory
+static HANGS: std::sync::atomic::AtomicU64 = std::sync::atomic::AtomicU64::new(0);
+
 fn fails(prop: &'static dyn Prop, case: &Case, oracle: &str, sig: Option<&str>) -> Option<Violation> {
     let r = crate::runner::run_case(prop, case);
+    if r.viol.iter().any(|v| v.oracle.ends_with(".hang")) {
+        HANGS.fetch_add(1, std::sync::atomic::Ordering::SeqCst);
+    }
     r.viol.into_iter().find(|v| v.oracle == oracle && sig.map_or(true, |s| v.sig == s))
 }
 
@@ -82,7 +88,8 @@ pub fn minimise(prop: &'static dyn Prop, start: &Case, oracle: &str, sig: Option
     let mut last_v = None;
     let mut evals = 0u64;
     let mut try_case = |cand: &Case, best: &mut Case, last_v: &mut Option<Violation>| -> bool {
-        if t0.elapsed() > budget || evals > 4000 {
+        // a candidate that hangs parks a thread for good (up to the byte budget each): stop after three
+        if t0.elapsed() > budget || evals > 4000 || HANGS.load(std::sync::atomic::Ordering::SeqCst) >= 3 {
             return false;
         }
         evals += 1;
